@@ -384,6 +384,9 @@ Definition feedback (k : tk) (stk : list bool) (l : lexer) : list bool * lexer :
   | KEOF => (stk, l)
   end.
 
+(* goyacc's yylex1 takes every value <= 0 as the end of input: eof (-1) and a NUL byte returned as int(ch) *)
+Definition is_end (k : tk) : bool := match k with KEOF => true | KChar c => c =? 0 | KTok _ => false end.
+
 Fixpoint lex_all (fuel : nat) (l : lexer) (stk : list bool) : option (list ltok) :=
   match fuel with
   | O => None
@@ -392,11 +395,9 @@ Fixpoint lex_all (fuel : nat) (l : lexer) (stk : list bool) : option (list ltok)
       | None => None
       | Some (k, l1) =>
           let t := mkltok k (ltoken l1) (po (lp l1)) (linstr l1) (lex_error l1) in
-          match k with
-          | KEOF => Some [t]
-          | _ => let '(stk', l2) := feedback k stk l1 in
-                 match lex_all f l2 stk' with Some ts => Some (t :: ts) | None => None end
-          end
+          if is_end k then Some [t]
+          else let '(stk', l2) := feedback k stk l1 in
+               match lex_all f l2 stk' with Some ts => Some (t :: ts) | None => None end
       end
   end.
 
